@@ -507,4 +507,10 @@ theorem chunk_flatten {α : Type} (sched : Schedule) (xs : List α) : (chunk sch
       simp only [chunk, List.flatten_cons, ih]
       exact List.take_append_drop n (x :: xs)
 
+/-- `VariableChunkIterator` chunk sizes are 1..4 -/
+theorem wordSize_range (w i : Nat) : 1 ≤ wordSize w i ∧ wordSize w i ≤ 4 := by
+  unfold wordSize
+  have : (w >>> (2 * (i % 32))) &&& 3 ≤ 3 := Nat.and_le_right
+  omega
+
 end TF.Carrier
